@@ -67,7 +67,9 @@ def gen(rng, tier):
                                 {"f": "arr", "shape": list(base)}, {"f": "arr", "shape": list(base[-1:])},
                                 {"f": "arr", "shape": [2] + list(base)}, {"f": "arr", "shape": [1] + list(base)},
                                 {"f": "arr", "shape": list(rng.choice(SHAPES))},
-                                {"f": "arr", "shape": list(rng.choice(SHAPES))}])
+                                {"f": "arr", "shape": list(rng.choice(SHAPES))},
+                                # a nested Python list / tuple with exactly the parameter shape (weights loaded from JSON)
+                                {"f": "nested", "box": "list"}, {"f": "nested", "box": "tuple"}])
             c0 = {"kind": "neuron", "cls": cls, "shapes": shapes, "w_in": w}
             r2 = rng.random()
             if r2 < 0.3:
@@ -148,6 +150,10 @@ def recipe(c):
                 args["w_in"] = -0.0 if not w.get("arr") else np.array([-0.0] * (c["shapes"][0][-1] if c["shapes"][0] else 1))[:None if c["shapes"][0] else 0] if False else (np.full(c["shapes"][0][-1:], -0.0) if c["shapes"][0] else np.array(-0.0))
             elif w["f"] == "cplx":
                 args["w_in"] = np.complex128(1.5 + 0.5j)
+            elif w["f"] == "nested":
+                def box(x):
+                    return x if not isinstance(x, list) else (list if w["box"] == "list" else tuple)(box(y) for y in x)
+                args["w_in"] = box(np.full(c["shapes"][0], 2.0).tolist())
             else:
                 args["w_in"] = np.full(w["shape"], 2.0, dtype=w.get("dt", "float64"))
         return {"k": c["cls"], "args": args}
@@ -198,6 +204,8 @@ def run(c):
     r = recipe(c)
     res = try_build(r)
     coq = cbuild(r, res)
+    if c["kind"] == "neuron" and c.get("w_in") and c["w_in"].get("f") == "nested" and len(c["shapes"][0]) >= 2:
+        coq = None      # numpy's conversion of a NESTED sequence is not in the model (flat sequences are): oracle only
     want, S = should_accept(c)
     sig = repr(sorted(c.items(), key=lambda kv: kv[0]))
     nontriv = c["kind"] != "linear" or len(c["shape"]) != 2
